@@ -288,7 +288,8 @@ fn clearly_unparseable(req: &[u8], buf: usize) -> Option<&'static str> {
     let line = &seen[..line_end];
     let line = if line.ends_with(b"\r") { &line[..line.len() - 1] } else { line };
     let s = match std::str::from_utf8(line) {
-        Ok(s) => s,
+        // blanks and control characters around the line are a matter of leniency, not of parseability
+        Ok(s) => s.trim_matches(|c: char| c.is_ascii_whitespace() || c.is_ascii_control()),
         Err(_) => return Some("request line is not UTF-8"),
     };
     let f: Vec<&str> = s.split(' ').filter(|x| !x.is_empty()).collect();
